@@ -3,7 +3,8 @@ virtual-time simulator (`vsim`) instead of the stub `zc`:
 
 * browsers are real `AsyncServiceBrowser` objects (even ids: `__init__` -> `_async_start` -> the real `Zeroconf.async_add_listener`,
   query scheduler running) and real thread-based `ServiceBrowser` objects (odd ids: `__init__` starts the delivery thread and schedules
-  `_async_start` on the loop; every callback goes through `queue.SimpleQueue` and `ServiceBrowser.run` on that thread), cancelled with
+  `_async_start` on the loop; with a single type they are built by the sync API `Zeroconf.add_service_listener` and cancelled by
+  `remove_service_listener`; every callback goes through `queue.SimpleQueue` and `ServiceBrowser.run` on that thread), cancelled with
   `async_cancel()` / `cancel()`;
 * datagrams are bytes handed to the real `AsyncListener.datagram_received` of the instance's socket (duplicate guard, decode, record
   manager), at the virtual instant of the op;
@@ -17,11 +18,13 @@ from __future__ import annotations
 
 import asyncio
 import time
+from unittest import mock
 
 from . import cachecommon as CC
 from . import common as C  # noqa: F401  (sys.path)
 from . import vsim
 
+import zeroconf._core as _zc_core  # noqa: E402
 from zeroconf import const as K  # noqa: E402
 from zeroconf._dns import DNSPointer  # noqa: E402
 from zeroconf._services import ServiceListener  # noqa: E402
@@ -130,10 +133,17 @@ class Live:
                         old = self.browsers.pop(bid, None)
                         if old is not None:
                             await self._cancel(old)
+                        lst = _Listener(self, bid)
                         if bid % 2 == 0:
-                            b = AsyncServiceBrowser(zc, list(op[3]), listener=_Listener(self, bid))
+                            b = AsyncServiceBrowser(zc, list(op[3]), listener=lst)
+                        elif len(op[3]) == 1:
+                            # the sync convenience API: Zeroconf.add_service_listener(type, listener) builds the ServiceBrowser
+                            with mock.patch.object(_zc_core, "ServiceBrowser", _CountingThreadBrowser):
+                                zc.add_service_listener(op[3][0], lst)
+                            b = zc.browsers[lst]
+                            b.via_listener_api = lst
                         else:
-                            b = _CountingThreadBrowser(zc, list(op[3]), listener=_Listener(self, bid))
+                            b = _CountingThreadBrowser(zc, list(op[3]), listener=lst)
                         self.browsers[bid] = b
                         self.delivered[bid] = 0
                     elif k == "BR":
@@ -169,7 +179,11 @@ class Live:
         return out
 
     async def _cancel(self, b):
-        if isinstance(b, _CountingThreadBrowser):
+        if getattr(b, "via_listener_api", None) is not None:
+            b.zc.remove_service_listener(b.via_listener_api)      # -> ServiceBrowser.cancel()
+            await asyncio.sleep(0)
+            await asyncio.sleep(0)
+        elif isinstance(b, _CountingThreadBrowser):
             b.cancel()           # queue.put(None), call_soon_threadsafe(_async_cancel), join
             await asyncio.sleep(0)
             await asyncio.sleep(0)
